@@ -1,3 +1,671 @@
-From Coq Require Import List Arith ZArith Bool Lia.
+(* C12 -- proofs, part 1: generic facts about the stable sort, the runs (table groups),
+   argsort / order_by (the un-grouping permutation). *)
+From Coq Require Import List Arith ZArith Bool Lia ZifyBool Relations Sorted Permutation.
 From PV Require Import lib.Cases lib.Conn C12_Model.
 Import ListNotations.
+Open Scope Z_scope.
+
+(* ------------------------------------------------------------------ *)
+(* generic list facts *)
+Lemma map_nth_seq {A} (l : list A) d : map (fun i => nth i l d) (seq 0 (length l)) = l.
+Proof.
+  induction l as [|a l IH]; [reflexivity|]. cbn [length seq map nth]. f_equal.
+  rewrite <- seq_shift, map_map. exact IH.
+Qed.
+
+Lemma map_snd_combine {A B} (la : list A) (lb : list B) :
+  length la = length lb -> map snd (combine la lb) = lb.
+Proof. revert lb; induction la as [|a la IH]; intros [|b lb] H; cbn in *; try lia; [reflexivity|]. f_equal. apply IH. lia. Qed.
+Lemma map_fst_combine {A B} (la : list A) (lb : list B) :
+  length la = length lb -> map fst (combine la lb) = la.
+Proof. revert lb; induction la as [|a la IH]; intros [|b lb] H; cbn in *; try lia; [reflexivity|]. f_equal. apply IH. lia. Qed.
+
+Lemma in_combine_nth {A} (l : list A) d p :
+  In p (combine l (seq 0 (length l))) -> fst p = nth (snd p) l d.
+Proof.
+  intros H. destruct p as [a i]. cbn.
+  destruct (In_nth _ _ (d, 0%nat) H) as (k & Hk & E).
+  rewrite combine_length, seq_length, Nat.min_id in Hk.
+  rewrite combine_nth in E by (rewrite seq_length; reflexivity).
+  rewrite seq_nth in E by exact Hk. injection E as E1 E2. subst. cbn. reflexivity.
+Qed.
+
+(* ------------------------------------------------------------------ *)
+Section Sorting.
+Context {A : Type} (key : A -> Z).
+
+Definition ksorted (l : list A) := StronglySorted (fun a b => key a <= key b) l.
+
+Lemma sort_by_cons a l : sort_by key (a :: l) = insert_by key a (sort_by key l).
+Proof. reflexivity. Qed.
+
+Lemma insert_by_perm a l : Permutation (insert_by key a l) (a :: l).
+Proof.
+  induction l as [|b l IH]; cbn; [reflexivity|]. destruct (key a <=? key b); [reflexivity|].
+  etransitivity; [apply perm_skip, IH|apply perm_swap].
+Qed.
+Lemma sort_by_perm l : Permutation (sort_by key l) l.
+Proof.
+  induction l as [|a l IH]; [constructor|]. rewrite sort_by_cons.
+  etransitivity; [apply insert_by_perm|]. apply perm_skip, IH.
+Qed.
+Lemma sort_by_length l : length (sort_by key l) = length l.
+Proof. apply Permutation_length, sort_by_perm. Qed.
+Lemma sort_by_in x l : In x (sort_by key l) <-> In x l.
+Proof. split; apply Permutation_in; [|symmetry]; apply sort_by_perm. Qed.
+
+Lemma insert_by_sorted a l : ksorted l -> ksorted (insert_by key a l).
+Proof.
+  induction 1 as [|b l Hs IH Hall]; cbn.
+  - repeat constructor.
+  - destruct (key a <=? key b) eqn:E.
+    + constructor; [constructor; auto|]. constructor; [lia|].
+      eapply Forall_impl; [|exact Hall]. cbn; intros; lia.
+    + constructor; [exact IH|]. rewrite Forall_forall in *. intros x Hx.
+      apply (Permutation_in _ (insert_by_perm a l)) in Hx. destruct Hx as [<-|Hx]; [lia|auto].
+Qed.
+Lemma sort_by_sorted l : ksorted (sort_by key l).
+Proof. induction l as [|a l IH]; [constructor|]. rewrite sort_by_cons. apply insert_by_sorted, IH. Qed.
+
+(* stability: the elements with a given key keep their relative order *)
+Lemma insert_by_filter v a l :
+  filter (fun x => key x =? v) (insert_by key a l) =
+  if key a =? v then a :: filter (fun x => key x =? v) l else filter (fun x => key x =? v) l.
+Proof.
+  induction l as [|b l IH]; cbn; [reflexivity|].
+  destruct (key a <=? key b) eqn:E; cbn; [reflexivity|].
+  rewrite IH. destruct (key a =? v) eqn:Ea, (key b =? v) eqn:Eb; try reflexivity. lia.
+Qed.
+Lemma sort_by_stable v l :
+  filter (fun x => key x =? v) (sort_by key l) = filter (fun x => key x =? v) l.
+Proof.
+  induction l as [|a l IH]; [reflexivity|]. rewrite sort_by_cons, insert_by_filter, IH. reflexivity.
+Qed.
+
+(* a sorted list is a fixed point *)
+Lemma insert_by_head a l : Forall (fun b => key a <= key b) l -> insert_by key a l = a :: l.
+Proof. destruct l as [|b l]; [reflexivity|]. intros H. inversion H; subst. cbn.
+  destruct (key a <=? key b) eqn:E; [reflexivity|lia]. Qed.
+Lemma sort_by_id l : ksorted l -> sort_by key l = l.
+Proof. induction 1 as [|a l Hs IH Hall]; [reflexivity|]. rewrite sort_by_cons, IH. apply insert_by_head, Hall. Qed.
+
+(* two sorted permutations of each other with pairwise distinct keys are equal *)
+Lemma sorted_perm_unique l1 l2 :
+  ksorted l1 -> ksorted l2 -> Permutation l1 l2 -> NoDup (map key l1) -> l1 = l2.
+Proof.
+  intros H1; revert l2; induction H1 as [|a l1 Hs1 IH Hall1]; intros l2 H2 Hp Hnd.
+  - apply Permutation_nil in Hp. subst; reflexivity.
+  - destruct H2 as [|b l2 Hs2 Hall2]; [apply Permutation_sym, Permutation_nil in Hp; discriminate|].
+    assert (Eab : a = b).
+    { assert (Ha : In a (b :: l2)) by (eapply Permutation_in; [exact Hp|left; reflexivity]).
+      assert (Hb : In b (a :: l1)) by (eapply Permutation_in; [symmetry; exact Hp|left; reflexivity]).
+      destruct Ha as [Ha|Ha]; [auto|]. destruct Hb as [Hb|Hb]; [auto|].
+      rewrite Forall_forall in Hall1, Hall2. pose proof (Hall1 _ Hb). pose proof (Hall2 _ Ha).
+      assert (Ek : key a = key b) by lia.
+      exfalso. cbn in Hnd. inversion Hnd as [|? ? Hnotin _]; subst. apply Hnotin.
+      rewrite Ek. apply in_map, Hb. }
+    subst b. f_equal. apply IH; auto.
+    + eapply Permutation_cons_inv; exact Hp.
+    + cbn in Hnd. inversion Hnd; auto.
+Qed.
+
+End Sorting.
+
+(* sorting commutes with a key-preserving map *)
+Lemma insert_by_map {A B} (key : A -> Z) (key' : B -> Z) (f : B -> A) b l :
+  key (f b) = key' b -> (forall x, In x l -> key (f x) = key' x) ->
+  map f (insert_by key' b l) = insert_by key (f b) (map f l).
+Proof.
+  intros Hb. induction l as [|c l IH]; intros H; cbn; [reflexivity|].
+  rewrite Hb, (H c (or_introl eq_refl)). destruct (key' b <=? key' c); cbn; [reflexivity|].
+  f_equal. apply IH. intros x Hx. apply H. right; exact Hx.
+Qed.
+Lemma sort_by_map {A B} (key : A -> Z) (key' : B -> Z) (f : B -> A) l :
+  (forall x, In x l -> key (f x) = key' x) -> map f (sort_by key' l) = sort_by key (map f l).
+Proof.
+  induction l as [|b l IH]; intros H; [reflexivity|]. cbn [map]. rewrite !sort_by_cons.
+  rewrite (insert_by_map key key').
+  - f_equal. apply IH. intros; apply H; right; auto.
+  - apply H; left; auto.
+  - intros x Hx. apply H. right. apply (proj1 (sort_by_in key' x l) Hx).
+Qed.
+
+(* ------------------------------------------------------------------ *)
+(* un-grouping: indexing a list with argsort of its keys IS the stable sort by key *)
+Lemma order_by_argsort {A} (key : A -> Z) (l : list A) d :
+  order_by (argsort (map key l)) l d = sort_by key l.
+Proof.
+  unfold order_by, argsort. rewrite map_map, map_length.
+  rewrite (sort_by_map key fst (fun p => nth (snd p) l d)).
+  - f_equal. rewrite <- (map_map snd (fun i => nth i l d)).
+    rewrite map_snd_combine by (rewrite map_length, seq_length; reflexivity).
+    apply map_nth_seq.
+  - intros p Hp. rewrite <- (map_length key l) in Hp.
+    rewrite (in_combine_nth (map key l) (key d) p Hp). symmetry. apply map_nth.
+Qed.
+
+Lemma order_by_map {A B} (f : A -> B) idx (l : list A) d :
+  order_by idx (map f l) (f d) = map f (order_by idx l d).
+Proof. unfold order_by. rewrite map_map. apply map_ext. intros i. apply map_nth. Qed.
+
+Lemma filter_all_false {A} (f : A -> bool) l : (forall x, In x l -> f x = false) -> filter f l = [].
+Proof. induction l as [|a l IH]; intros H; [reflexivity|]. cbn. rewrite (H a (or_introl eq_refl)). apply IH. intros; apply H; right; auto. Qed.
+Lemma filter_all_true {A} (f : A -> bool) l : (forall x, In x l -> f x = true) -> filter f l = l.
+Proof. induction l as [|a l IH]; intros H; [reflexivity|]. cbn. rewrite (H a (or_introl eq_refl)). f_equal. apply IH. intros; apply H; right; auto. Qed.
+
+Lemma sorted_lt_notin (x : Z) l : Forall (Z.lt x) l -> ~ In x l.
+Proof. rewrite Forall_forall. intros H Hin. specialize (H _ Hin). lia. Qed.
+Lemma sorted_lt_nodup (l : list Z) : StronglySorted Z.lt l -> NoDup l.
+Proof. induction 1 as [|a l Hs IH Hall]; constructor; auto. apply sorted_lt_notin, Hall. Qed.
+
+(* ------------------------------------------------------------------ *)
+(* Table.groups: maximal runs of equal key *)
+Section Runs.
+Context {A : Type} (key : A -> Z).
+Definition hk (g : list A) : Z := match g with [] => 0 | b :: _ => key b end.
+
+Lemma runs_cons a l : runs key (a :: l) =
+  match runs key l with
+  | (b :: g) :: gs => if key a =? key b then (a :: b :: g) :: gs else [a] :: (b :: g) :: gs
+  | _ => [[a]]
+  end.
+Proof. reflexivity. Qed.
+
+Lemma runs_nonempty l : Forall (fun g => g <> []) (runs key l).
+Proof.
+  induction l as [|a l IH]; [constructor|]. rewrite runs_cons.
+  destruct (runs key l) as [|[|b g] gs].
+  - repeat constructor; discriminate.
+  - repeat constructor; discriminate.
+  - inversion IH; subst. destruct (key a =? key b); repeat constructor; auto; discriminate.
+Qed.
+
+Lemma runs_nil_inv l : runs key l = [] -> l = [].
+Proof.
+  destruct l as [|a l]; [reflexivity|]. rewrite runs_cons.
+  destruct (runs key l) as [|[|b g] gs]; try discriminate. destruct (key a =? key b); discriminate.
+Qed.
+
+Lemma concat_runs l : concat (runs key l) = l.
+Proof.
+  induction l as [|a l IH]; [reflexivity|]. rewrite runs_cons.
+  pose proof (runs_nonempty l) as Hne.
+  destruct (runs key l) as [|[|b g] gs] eqn:E.
+  - apply runs_nil_inv in E. subst. reflexivity.
+  - inversion Hne; subst. congruence.
+  - destruct (key a =? key b); cbn in *; f_equal; exact IH.
+Qed.
+
+Lemma runs_const l : Forall (fun g => forall x, In x g -> key x = hk g) (runs key l).
+Proof.
+  induction l as [|a l IH]; [constructor|]. rewrite runs_cons.
+  destruct (runs key l) as [|[|b g] gs].
+  - constructor; [|constructor]. intros x [<-|[]]. reflexivity.
+  - constructor; [|constructor]. intros x [<-|[]]. reflexivity.
+  - inversion IH as [|? ? Hb Hgs]; subst. destruct (key a =? key b) eqn:E.
+    + constructor; [|exact Hgs]. intros x [<-|Hx]; [reflexivity|]. cbn. rewrite (Hb x Hx). cbn. lia.
+    + constructor; [|constructor; auto]. intros x [<-|[]]. reflexivity.
+Qed.
+
+Lemma runs_heads_sorted l : ksorted key l -> StronglySorted Z.lt (map hk (runs key l)).
+Proof.
+  induction 1 as [|a l Hs IH Hall]; [constructor|]. rewrite runs_cons.
+  pose proof (concat_runs l) as Hc.
+  destruct (runs key l) as [|[|b g] gs].
+  - cbn. repeat constructor.
+  - cbn. repeat constructor.
+  - assert (Hab : key a <= key b).
+    { rewrite Forall_forall in Hall. apply Hall. rewrite <- Hc. cbn. left; reflexivity. }
+    cbn [map hk] in IH. inversion IH as [|? ? Hs' Hall']; subst.
+    destruct (key a =? key b) eqn:E; cbn [map hk].
+    + constructor; [exact Hs'|]. eapply Forall_impl; [|exact Hall']. cbn; intros; lia.
+    + constructor; [exact IH|]. constructor; [lia|].
+      eapply Forall_impl; [|exact Hall']. cbn; intros; lia.
+Qed.
+
+(* a run is exactly the sub-list of the elements carrying its key *)
+Lemma filter_concat_run (rs : list (list A)) :
+  Forall (fun g => forall x, In x g -> key x = hk g) rs -> NoDup (map hk rs) ->
+  forall g, In g rs -> filter (fun x => key x =? hk g) (concat rs) = g.
+Proof.
+  induction rs as [|r rs IH]; intros Hc Hnd g Hg; [destruct Hg|].
+  inversion Hc as [|? ? Hr Hrs]; subst. cbn in Hnd. inversion Hnd as [|? ? Hnotin Hnd']; subst.
+  cbn [concat]. rewrite filter_app. destruct Hg as [->|Hg].
+  - rewrite filter_all_true by (intros x Hx; rewrite (Hr x Hx); lia).
+    rewrite filter_all_false; [apply app_nil_r|].
+    intros x Hx. apply in_concat in Hx. destruct Hx as (g' & Hg' & Hx).
+    rewrite Forall_forall in Hrs. rewrite (Hrs g' Hg' x Hx).
+    destruct (hk g' =? hk g) eqn:E; [|reflexivity]. exfalso. apply Hnotin.
+    assert (E' : hk g = hk g') by lia. rewrite E'. apply in_map, Hg'.
+  - rewrite filter_all_false; [cbn; apply IH; auto|].
+    intros x Hx. rewrite (Hr x Hx). destruct (hk r =? hk g) eqn:E; [|reflexivity]. exfalso. apply Hnotin.
+    assert (E' : hk r = hk g) by lia. rewrite E'. apply in_map, Hg.
+Qed.
+
+(* groups of the table sorted on the key: the sub-lists of equal key, in the original
+   (input) order of their members, one per distinct key, in increasing key order *)
+Theorem groups_spec (l : list A) :
+  let gs := runs key (sort_by key l) in
+  concat gs = sort_by key l /\
+  StronglySorted Z.lt (map hk gs) /\
+  (forall g, In g gs -> g <> [] /\ g = filter (fun x => key x =? hk g) l) /\
+  (forall x, In x l -> In (filter (fun y => key y =? key x) l) gs).
+Proof.
+  cbv zeta. pose proof (concat_runs (sort_by key l)) as Hc.
+  pose proof (runs_heads_sorted _ (sort_by_sorted key l)) as Hs.
+  pose proof (runs_const (sort_by key l)) as Hk.
+  pose proof (runs_nonempty (sort_by key l)) as Hne.
+  assert (Hg : forall g, In g (runs key (sort_by key l)) -> g = filter (fun x => key x =? hk g) l).
+  { intros g Hg. rewrite <- (sort_by_stable key (hk g) l), <- Hc at 1. symmetry.
+    apply filter_concat_run; auto. apply sorted_lt_nodup, Hs. }
+  repeat split; auto.
+  - rewrite Forall_forall in Hne. apply Hne, H.
+  - intros x Hx. apply (sort_by_in key) in Hx. rewrite <- Hc in Hx. apply in_concat in Hx.
+    destruct Hx as (g & Hg1 & Hx). rewrite Forall_forall in Hk. rewrite (Hk g Hg1 x Hx).
+    rewrite <- (Hg g Hg1). exact Hg1.
+Qed.
+End Runs.
+
+(* ------------------------------------------------------------------ *)
+(* more list facts *)
+Lemma combine_app {A B} (a1 a2 : list A) (b1 b2 : list B) :
+  length a1 = length b1 -> combine (a1 ++ a2) (b1 ++ b2) = combine a1 b1 ++ combine a2 b2.
+Proof. revert b1; induction a1 as [|a a1 IH]; intros [|b b1] H; cbn in *; try lia; [reflexivity|]. f_equal. apply IH. lia. Qed.
+
+Lemma in_combine_map_seq {A B} (f : nat -> A) n (L : list B) d a b :
+  length L = n -> In (a, b) (combine (map f (seq 0 n)) L) ->
+  exists j, (j < n)%nat /\ a = f j /\ b = nth j L d.
+Proof.
+  intros HL Hin. destruct (In_nth _ _ (f 0%nat, d) Hin) as (j & Hj & E).
+  rewrite combine_length, map_length, seq_length, HL, Nat.min_id in Hj.
+  rewrite combine_nth in E by (rewrite map_length, seq_length; auto).
+  injection E as E1 E2. exists j. repeat split; auto.
+  rewrite <- E1. rewrite (map_nth f (seq 0 n) 0%nat j), seq_nth by exact Hj. reflexivity.
+Qed.
+
+Lemma split_res_length ns r : ns <> [] -> length (split_res ns r) = length ns.
+Proof.
+  revert r; induction ns as [|n ns IH]; intros r H; [congruence|].
+  destruct ns as [|m ns]; [reflexivity|].
+  change (split_res (n :: m :: ns) r) with (firstn n r :: split_res (m :: ns) (skipn n r)).
+  cbn [length]. f_equal. apply IH. discriminate.
+Qed.
+
+Fixpoint pos_by_id (i : Z) (l : list src) : nat :=
+  match l with [] => 0%nat | a :: r => if s_id a =? i then 0%nat else S (pos_by_id i r) end.
+Lemma pos_by_id_nth g : NoDup (map s_id g) -> forall j, (j < length g)%nat ->
+  pos_by_id (s_id (nth j g src0)) g = j.
+Proof.
+  induction g as [|a g IH]; intros Hnd j Hj; [cbn in Hj; lia|].
+  cbn in Hnd. inversion Hnd as [|? ? Hnotin Hnd']; subst. destruct j as [|j]; cbn.
+  - rewrite Z.eqb_refl. reflexivity.
+  - cbn in Hj. destruct (s_id a =? s_id (nth j g src0)) eqn:E.
+    + exfalso. apply Hnotin. assert (E' : s_id a = s_id (nth j g src0)) by lia. rewrite E'.
+      apply in_map, nth_In. lia.
+    + f_equal. apply IH; auto. lia.
+Qed.
+
+Lemma NoDup_map_filter {A B} (f : A -> B) (P : A -> bool) l : NoDup (map f l) -> NoDup (map f (filter P l)).
+Proof.
+  induction l as [|a l IH]; intros H; [constructor|]. cbn in H. inversion H as [|? ? Hn Hd]; subst.
+  cbn. destruct (P a); [|auto]. cbn. constructor; [|auto].
+  intros Hin. apply Hn. apply in_map_iff in Hin. destruct Hin as (x & E & Hx).
+  apply filter_In in Hx. apply in_map_iff. exists x. tauto.
+Qed.
+
+(* ------------------------------------------------------------------ *)
+Section PhotProofs.
+Variables (ny nx fy fx sc : Z) (msk : option (list bool)) (data : list (option Z))
+  (errbad : option (list bool)) (xyb : option (option Z * option Z))
+  (fixed : bool * bool * bool) (nextra : Z) (fitter : nat -> callin -> fitout).
+
+Notation FD := (fit_data ny nx fy fx sc msk).
+Notation FD1 := (fit_data1 ny nx fy fx sc msk).
+Notation MC := (make_call nx data xyb).
+Notation FG := (fit_groups ny nx fy fx sc msk data errbad xyb fitter).
+Notation PG := (per_group fixed nextra).
+Notation PGS := (per_groups fixed nextra).
+Notation PHOT := (photometry ny nx fy fx sc msk data errbad xyb fixed nextra fitter).
+
+Lemma fit_data_Forall2 g : forall fd, FD g = inr fd -> Forall2 (fun s d => FD1 s = inr d) g fd.
+Proof.
+  induction g as [|s g IH]; intros fd H; cbn in H.
+  - injection H as <-. constructor.
+  - destruct (FD1 s) as [e|d] eqn:E1; [discriminate|].
+    destruct (FD g) as [e|ds] eqn:E2; [discriminate|].
+    injection H as <-. constructor; auto.
+Qed.
+
+Lemma fit_groups_ok gs : forall k calls rs,
+  FG k gs = (calls, None, rs) ->
+  length calls = length gs /\ length rs = length gs /\
+  forall i g, nth_error gs i = Some g ->
+    exists fd, FD g = inr fd /\ existsb (wbad nx errbad) (flat_map fst fd) = false /\
+      nth_error calls i = Some (MC g fd) /\
+      nth_error rs i = Some (mkG g fd (fitter (k + i)%nat (MC g fd))).
+Proof.
+  induction gs as [|g gs IH]; intros k calls rs H; cbn in H.
+  - injection H as <- <-. repeat split; auto. intros [|i] g H; discriminate.
+  - destruct (FD g) as [e|fd] eqn:Efd; [discriminate|].
+    destruct (existsb (wbad nx errbad) (flat_map fst fd)) eqn:Ew; [discriminate|].
+    destruct (FG (S k) gs) as [[c e] r] eqn:Erec. injection H as <- -> <-.
+    destruct (IH _ _ _ Erec) as (L1 & L2 & Hn). cbn [length]. repeat split; try lia.
+    intros [|i] g' Hg'; cbn in Hg'.
+    + injection Hg' as <-. exists fd. rewrite Nat.add_0_r. cbn. auto.
+    + destruct (Hn i g' Hg') as (fd' & H1 & H2 & H3 & H4). exists fd'.
+      replace (k + S i)%nat with (S k + i)%nat by lia. cbn. auto.
+Qed.
+
+(* the record of slot j of group number gi *)
+Definition rec_of (gi : nat) (r : gres) (j : nat) : psrc :=
+  let fd := nth j (gr_fd r) ([], None) in
+  mkP (nth j (gr_srcs r) src0) (nth j (fo_par (gr_out r)) (0, 0, 0)) (gr_out r)
+      (errs_of fixed nextra (length (gr_srcs r)) j (fo_cov (gr_out r)))
+      (length (fst fd)) (snd fd) (length (gr_srcs r)) gi j.
+Lemma per_group_eq gi r : PG gi r = map (rec_of gi r) (seq 0 (length (gr_srcs r))).
+Proof. reflexivity. Qed.
+
+Lemma per_group_srcs gi r : map p_src (PG gi r) = gr_srcs r.
+Proof. rewrite per_group_eq, map_map. cbn. apply map_nth_seq. Qed.
+Lemma per_groups_srcs rs : forall gi, map p_src (PGS gi rs) = concat (map gr_srcs rs).
+Proof.
+  induction rs as [|r rs IH]; intros gi; [reflexivity|].
+  change (PGS gi (r :: rs)) with (PG gi r ++ PGS (S gi) rs).
+  rewrite map_app, per_group_srcs, IH. reflexivity.
+Qed.
+
+Definition wf_gres (r : gres) := gr_srcs r <> [] /\ length (gr_fd r) = length (gr_srcs r).
+
+Lemma group_resids_length key r : wf_gres r -> length (group_resids key r) = length (gr_srcs r).
+Proof.
+  intros [Hne Hl]. unfold group_resids. rewrite split_res_length, map_length; [exact Hl|].
+  destruct (gr_fd r); [|discriminate]. cbn in Hl. destruct (gr_srcs r); [congruence|discriminate].
+Qed.
+
+Lemma per_groups_resids_length key rs : Forall wf_gres rs -> forall gi,
+  length (PGS gi rs) = length (flat_map (group_resids key) rs).
+Proof.
+  induction 1 as [|r rs Hr Hrs IH]; intros gi; [reflexivity|].
+  change (PGS gi (r :: rs)) with (PG gi r ++ PGS (S gi) rs). cbn [flat_map].
+  rewrite !app_length, (IH (S gi)), group_resids_length by exact Hr.
+  rewrite per_group_eq, map_length, seq_length. reflexivity.
+Qed.
+
+(* every (record, residual chunk) pair of the flattened lists comes from one slot of one group *)
+Lemma in_combine_groups key rs : Forall wf_gres rs -> forall gi p res,
+  In (p, res) (combine (PGS gi rs) (flat_map (group_resids key) rs)) ->
+  exists i r j, nth_error rs i = Some r /\ (j < length (gr_srcs r))%nat /\
+     p = rec_of (gi + i) r j /\ res = nth j (group_resids key r) [].
+Proof.
+  induction 1 as [|r rs Hr Hrs IH]; intros gi p res Hin; [destruct Hin|].
+  change (PGS gi (r :: rs)) with (PG gi r ++ PGS (S gi) rs) in Hin. cbn [flat_map] in Hin.
+  rewrite combine_app in Hin
+    by (rewrite group_resids_length by exact Hr; rewrite per_group_eq, map_length, seq_length; reflexivity).
+  apply in_app_or in Hin. destruct Hin as [Hin|Hin].
+  - rewrite per_group_eq in Hin.
+    apply (in_combine_map_seq _ _ _ []) in Hin; [|apply group_resids_length, Hr].
+    destruct Hin as (j & Hj & -> & ->). exists 0%nat, r, j. rewrite Nat.add_0_r. cbn. auto.
+  - destruct (IH _ _ _ Hin) as (i & r' & j & H1 & H2 & H3 & H4).
+    exists (S i), r', j. replace (gi + S i)%nat with (S gi + i)%nat by lia. cbn. auto.
+Qed.
+End PhotProofs.
+
+(* ------------------------------------------------------------------ *)
+Lemma Forall2_len {A B} (R : A -> B -> Prop) l1 l2 : Forall2 R l1 l2 -> length l1 = length l2.
+Proof. induction 1; cbn; auto. Qed.
+
+Lemma combine_map_same {A B C} (f : A -> B) (g : A -> C) l :
+  combine (map f l) (map g l) = map (fun i => (f i, g i)) l.
+Proof. induction l as [|a l IH]; [reflexivity|]. cbn. f_equal. exact IH. Qed.
+
+Lemma order_by_combine {A B} idx (P : list A) (R : list B) dp dr : length P = length R ->
+  combine (order_by idx P dp) (order_by idx R dr) = order_by idx (combine P R) (dp, dr).
+Proof.
+  intros H. unfold order_by. rewrite combine_map_same. apply map_ext. intros i.
+  symmetry. apply combine_nth, H.
+Qed.
+
+Lemma NoDup_map_of_nat l : NoDup l -> NoDup (map Z.of_nat l).
+Proof.
+  induction 1 as [|a l Hn Hd IH]; [constructor|]. cbn. constructor; [|exact IH].
+  intros Hin. apply in_map_iff in Hin. destruct Hin as (x & E & Hx). apply Hn.
+  assert (x = a) by lia. subst. exact Hx.
+Qed.
+Lemma default_ids_nodup n : NoDup (default_ids n).
+Proof. apply NoDup_map_of_nat, seq_NoDup. Qed.
+Lemma default_ids_sorted n : ksorted (fun z : Z => z) (default_ids n).
+Proof.
+  unfold default_ids. generalize 1%nat. induction n as [|n IH]; intros a; [constructor|].
+  cbn. constructor; [apply IH|]. apply Forall_forall. intros x Hx.
+  apply in_map_iff in Hx. destruct Hx as (y & <- & Hy). apply in_seq in Hy. lia.
+Qed.
+
+(* sources whose ids are a permutation of 1..N, put in id order *)
+Lemma sorted_ids srcs : Permutation (map s_id srcs) (default_ids (length srcs)) ->
+  map s_id (sort_by s_id srcs) = default_ids (length srcs).
+Proof.
+  intros Hp. rewrite (sort_by_map (fun z : Z => z) s_id s_id) by reflexivity.
+  apply (sorted_perm_unique (fun z : Z => z)).
+  - apply sort_by_sorted.
+  - apply default_ids_sorted.
+  - etransitivity; [apply sort_by_perm|exact Hp].
+  - rewrite map_id. eapply Permutation_NoDup; [|apply default_ids_nodup].
+    symmetry. etransitivity; [apply sort_by_perm|exact Hp].
+Qed.
+
+(* join(init_params, fit_params) on the id column *)
+Lemma join_rows_aux (F : list (psrc * list Z)) : forall (S : list src) (a : nat),
+  map s_id S = map Z.of_nat (seq (Datatypes.S a) (length S)) -> (a + length S <= length F)%nat ->
+  flat_map (fun si => match nth_error F (Z.to_nat (s_id si - 1)) with
+                      | Some f => if 1 <=? s_id si then [(si, f)] else []
+                      | None => [] end) S
+  = combine S (skipn a F).
+Proof.
+  induction S as [|s S IH]; intros a Hid Hlen; [reflexivity|].
+  cbn [length seq map] in Hid. injection Hid as Hs Hid. cbn [flat_map length] in *.
+  replace (Z.to_nat (s_id s - 1)) with a by lia.
+  destruct (nth_error F a) as [f|] eqn:Ef; [|apply nth_error_None in Ef; lia].
+  replace (1 <=? s_id s) with true by lia.
+  rewrite (IH (Datatypes.S a)) by (auto; lia).
+  assert (Esk : skipn a F = f :: skipn (Datatypes.S a) F).
+  { clear -Ef. revert F Ef; induction a as [|a IHa]; intros [|x F] Ef; cbn in *; try discriminate.
+    - injection Ef as ->. reflexivity.
+    - apply IHa, Ef. }
+  rewrite Esk. reflexivity.
+Qed.
+Lemma join_rows_sorted srcs F :
+  map s_id (sort_by s_id srcs) = default_ids (length srcs) -> length F = length srcs ->
+  join_rows srcs F = combine (sort_by s_id srcs) F.
+Proof.
+  intros Hid HF. unfold join_rows. rewrite (join_rows_aux F (sort_by s_id srcs) 0%nat).
+  - reflexivity.
+  - rewrite sort_by_length. exact Hid.
+  - rewrite sort_by_length. lia.
+Qed.
+
+Lemma Forall2_map_combine {A B C} (h : B -> A) (g : A * B -> C) (Q : A -> C -> Prop) (F : list B) :
+  (forall x, In x F -> Q (h x) (g (h x, x))) -> Forall2 Q (map h F) (map g (combine (map h F) F)).
+Proof.
+  induction F as [|x F IH]; intros H; cbn; constructor.
+  - apply H. left; reflexivity.
+  - apply IH. intros; apply H; right; auto.
+Qed.
+
+Section PhotMain.
+Variables (ny nx fy fx sc : Z) (msk : option (list bool)) (data : list (option Z))
+  (errbad : option (list bool)) (xyb : option (option Z * option Z))
+  (fixed : bool * bool * bool) (nextra : Z) (fitter : nat -> callin -> fitout).
+
+Notation FD := (fit_data ny nx fy fx sc msk).
+Notation MC := (make_call nx data xyb).
+Notation FG := (fit_groups ny nx fy fx sc msk data errbad xyb fitter).
+Notation PGS := (per_groups fixed nextra).
+Notation PHOT := (photometry ny nx fy fx sc msk data errbad xyb fixed nextra fitter).
+Notation REC := (rec_of fixed nextra).
+
+(* ---- the specification of one output row, written WITHOUT any sorting, grouping
+        or permutation: everything is looked up through the source itself ---- *)
+(* the sources that share the group id of s, in input order *)
+Definition group_of (srcs : list src) (s : src) : list src :=
+  filter (fun s' => s_gid s' =? s_gid s) srcs.
+Definition fd_of (g : list src) := match FD g with inr fd => fd | inl _ => [] end.
+(* what fitter call number k was given for the group of s *)
+Definition call_of (srcs : list src) (s : src) : callin :=
+  MC (group_of srcs s) (fd_of (group_of srcs s)).
+Definition key_of (fo : fitout) : rkey :=
+  match fo_fun fo, fo_fvec fo with Some _, _ => KFun | None, Some _ => KFvec | None, None => KNone end.
+
+Definition spec_psrc (srcs : list src) (k : nat) (s : src) : psrc :=
+  let g := group_of srcs s in
+  let j := pos_by_id (s_id s) g in          (* position of s inside its group *)
+  let fo := fitter k (call_of srcs s) in    (* what the fitter returned for that group *)
+  let d := nth j (fd_of g) ([], None) in    (* fit data of s itself *)
+  mkP s (nth j (fo_par fo) (0, 0, 0)) fo (errs_of fixed nextra (length g) j (fo_cov fo))
+      (length (fst d)) (snd d) (length g) k j.
+Definition spec_res (srcs : list src) (key : rkey) (k : nat) (s : src) : list Z :=
+  let g := group_of srcs s in
+  nth (pos_by_id (s_id s) g)
+      (split_res (map (fun d => length (fst d)) (fd_of g)) (resid_of key (fitter k (call_of srcs s)))) [].
+Definition spec_row (srcs : list src) (key : rkey) (k : nat) (s : src) : orow :=
+  let p := spec_psrc srcs k s in
+  let res := spec_res srcs key k s in
+  mkRow s (Z.of_nat (p_gsize p)) (p_par p) (err_cols fixed p) (Z.of_nat (p_npix p))
+        (flags ny nx fy fx sc xyb p) (qfit_num key res) (cfit_num key res (p_cen p)) k (p_slot p).
+
+Lemma fit_groups_srcs gs : forall k calls rs, FG k gs = (calls, None, rs) -> map gr_srcs rs = gs.
+Proof.
+  induction gs as [|g gs IH]; intros k calls rs H; cbn in H.
+  - injection H as <- <-. reflexivity.
+  - destruct (FD g) as [e|fd]; [discriminate|].
+    destruct (existsb (wbad nx errbad) (flat_map fst fd)); [discriminate|].
+    destruct (FG (S k) gs) as [[c e] r] eqn:Erec. injection H as <- -> <-.
+    cbn. f_equal. eapply IH, Erec.
+Qed.
+
+Lemma pick_key_calls gs : forall calls rs, FG 0 gs = (calls, None, rs) ->
+  pick_key rs = match calls with c :: _ => key_of (fitter 0%nat c) | [] => KNone end.
+Proof.
+  destruct gs as [|g gs]; intros calls rs H; cbn in H.
+  - injection H as <- <-. reflexivity.
+  - destruct (FD g) as [e|fd]; [discriminate|].
+    destruct (existsb (wbad nx errbad) (flat_map fst fd)); [discriminate|].
+    destruct (FG 1 gs) as [[c e] r]. injection H as <- -> <-. reflexivity.
+Qed.
+
+(* groups are formed and fitted correctly: every (record, residual) pair of the flattened
+   per-group lists is the specification record of its own source *)
+Lemma grouped_records srcs calls rs key :
+  NoDup (map s_id srcs) ->
+  FG 0 (runs s_gid (sort_by s_gid srcs)) = (calls, None, rs) ->
+  Forall (wf_gres) rs /\
+  forall p res, In (p, res) (combine (PGS 0 rs) (flat_map (group_resids key) rs)) ->
+    In (p_src p) srcs /\ p = spec_psrc srcs (p_grp p) (p_src p) /\
+    res = spec_res srcs key (p_grp p) (p_src p) /\
+    nth_error calls (p_grp p) = Some (call_of srcs (p_src p)) /\
+    FD (group_of srcs (p_src p)) = inr (fd_of (group_of srcs (p_src p))) /\
+    existsb (wbad nx errbad) (flat_map fst (fd_of (group_of srcs (p_src p)))) = false.
+Proof.
+  intros Hnd HFG.
+  destruct (groups_spec s_gid srcs) as (Hc & Hs & Hg & _).
+  destruct (fit_groups_ok _ _ _ _ _ _ _ _ _ _ _ _ _ _ HFG) as (L1 & L2 & Hn).
+  assert (Hwf : Forall wf_gres rs).
+  { apply Forall_forall. intros r Hr. destruct (In_nth_error _ _ Hr) as (i & Hi).
+    assert (Hi' : (i < length (runs s_gid (sort_by s_gid srcs)))%nat)
+      by (rewrite <- L2; apply nth_error_Some; congruence).
+    destruct (nth_error (runs s_gid (sort_by s_gid srcs)) i) as [g|] eqn:Eg;
+      [|apply nth_error_None in Eg; lia].
+    destruct (Hn i g Eg) as (fd & Hfd & _ & _ & Hr'). rewrite Hi in Hr'. injection Hr' as ->.
+    split; cbn.
+    - apply (Hg g), (nth_error_In _ _ Eg).
+    - symmetry. eapply Forall2_len, fit_data_Forall2, Hfd. }
+  split; [exact Hwf|]. intros p res Hin.
+  destruct (in_combine_groups fixed nextra key rs Hwf _ _ _ Hin) as (i & r & j & Hi & Hj & -> & ->).
+  cbn [Nat.add] in *.
+  assert (Hi' : (i < length (runs s_gid (sort_by s_gid srcs)))%nat)
+    by (rewrite <- L2; apply nth_error_Some; congruence).
+  destruct (nth_error (runs s_gid (sort_by s_gid srcs)) i) as [g|] eqn:Eg;
+    [|apply nth_error_None in Eg; lia].
+  destruct (Hn i g Eg) as (fd & Hfd & Hw & Hcall & Hr'). rewrite Hi in Hr'. injection Hr' as ->.
+  cbn [gr_srcs] in Hj. cbn [Nat.add] in Hcall.
+  destruct (Hg g (nth_error_In _ _ Eg)) as (Hne & Egf).
+  set (s := nth j g src0).
+  assert (Hsg : In s g) by (apply nth_In, Hj).
+  assert (Hs_srcs : In s srcs /\ s_gid s = hk s_gid g).
+  { rewrite Egf in Hsg. apply filter_In in Hsg. destruct Hsg as [H1 H2]. split; [exact H1|lia]. }
+  destruct Hs_srcs as [Hs_in Hs_gid].
+  assert (Egrp : group_of srcs s = g).
+  { unfold group_of. rewrite Hs_gid. symmetry. exact Egf. }
+  assert (Epos : pos_by_id (s_id s) g = j).
+  { apply pos_by_id_nth; [|exact Hj]. rewrite Egf. apply NoDup_map_filter, Hnd. }
+  assert (Efd : fd_of g = fd) by (unfold fd_of; rewrite Hfd; reflexivity).
+  unfold rec_of, spec_psrc, spec_res, call_of, group_resids. cbn [gr_srcs gr_fd gr_out p_src p_grp].
+  fold s. rewrite Egrp, Epos, Efd. repeat split; auto.
+Qed.
+
+(* what is claimed of the output row of source s *)
+Definition row_ok (srcs : list src) (calls : list callin) (key : rkey) (s : src) (row : orow) :=
+  exists k, FD (group_of srcs s) = inr (fd_of (group_of srcs s)) /\
+            existsb (wbad nx errbad) (flat_map fst (fd_of (group_of srcs s))) = false /\
+            nth_error calls k = Some (call_of srcs s) /\
+            row = spec_row srcs key k s.
+
+(* THE un-grouping theorem.  Sources carry ids that are a permutation of 1..N (the default
+   ids are 1..N in input order) and ARBITRARY group ids.  If the run succeeds, the output
+   rows are in one-to-one positional correspondence with the sources taken in id order,
+   and the row of source s is [spec_row ... s]: s's own init values, the size of s's own
+   group, the parameters / covariance slice / fit_info the fitter returned for the
+   sub-model named s in the call made for s's group, s's own npixfit, centre index,
+   residual slice and flags. *)
+Lemma photometry_rows srcs r :
+  Permutation (map s_id srcs) (default_ids (length srcs)) ->
+  PHOT srcs = r -> res_err r = None ->
+  let key := match res_calls r with c :: _ => key_of (fitter 0%nat c) | [] => KNone end in
+  map s_id (sort_by s_id srcs) = default_ids (length srcs) /\
+  Forall2 (row_ok srcs (res_calls r) key) (sort_by s_id srcs) (res_rows r).
+Proof.
+  intros Hp Hr He. cbv zeta.
+  pose proof (sorted_ids srcs Hp) as Hid. split; [exact Hid|].
+  assert (Hnd : NoDup (map s_id srcs))
+    by (eapply Permutation_NoDup; [symmetry; exact Hp|apply default_ids_nodup]).
+  unfold photometry in Hr. cbv zeta in Hr.
+  destruct (existsb (invalid ny nx fy fx sc) srcs) eqn:Einv; [subst r; discriminate|].
+  destruct (FG 0 (runs s_gid (sort_by s_gid srcs))) as [[calls e] rs] eqn:HFG.
+  destruct e as [e|]; [subst r; discriminate|].
+  pose proof (pick_key_calls _ _ _ HFG) as Hkey.
+  destruct (grouped_records srcs calls rs (pick_key rs) Hnd HFG) as (Hwf & Hrec).
+  set (P := PGS 0 rs) in *. set (R := flat_map (group_resids (pick_key rs)) rs) in *.
+  set (idx := argsort (map s_id (sort_by s_gid srcs))) in *.
+  assert (HPR : length P = length R) by apply per_groups_resids_length, Hwf.
+  assert (Hsrc : map p_src P = sort_by s_gid srcs).
+  { unfold P. rewrite per_groups_srcs, (fit_groups_srcs _ _ _ _ HFG). apply concat_runs. }
+  pose (kf := fun pr : psrc * list Z => s_id (p_src (fst pr))).
+  assert (HF : combine (order_by idx P psrc0) (order_by idx R []) = sort_by kf (combine P R)).
+  { rewrite order_by_combine by exact HPR. unfold idx. rewrite <- Hsrc.
+    replace (map s_id (map p_src P)) with (map kf (combine P R)).
+    - apply order_by_argsort.
+    - unfold kf. rewrite <- (map_map fst (fun p => s_id (p_src p))), map_fst_combine by exact HPR.
+      rewrite map_map. reflexivity. }
+  rewrite HF in Hr.
+  set (F := sort_by kf (combine P R)) in *.
+  assert (HFsrc : map (fun pr : psrc * list Z => p_src (fst pr)) F = sort_by s_id srcs).
+  { unfold F. rewrite (sort_by_map s_id kf (fun pr => p_src (fst pr))) by reflexivity.
+    rewrite <- (map_map fst p_src), map_fst_combine, Hsrc by exact HPR.
+    apply (sorted_perm_unique s_id).
+    - apply sort_by_sorted.
+    - apply sort_by_sorted.
+    - etransitivity; [apply sort_by_perm|]. etransitivity; [apply sort_by_perm|].
+      symmetry; apply sort_by_perm.
+    - eapply Permutation_NoDup; [|exact Hnd]. apply Permutation_map. symmetry.
+      etransitivity; [apply sort_by_perm|apply sort_by_perm]. }
+  assert (HFlen : length F = length srcs).
+  { rewrite <- (sort_by_length s_id srcs), <- HFsrc, map_length. reflexivity. }
+  rewrite (join_rows_sorted srcs F Hid HFlen) in Hr.
+  rewrite combine_length, sort_by_length, HFlen, Nat.min_id, Nat.eqb_refl in Hr. cbn [negb] in Hr.
+  subst r. cbn [res_calls res_rows]. rewrite <- Hkey.
+  rewrite <- HFsrc. apply Forall2_map_combine.
+  intros [p res] Hin. apply (proj1 (sort_by_in kf (p, res) (combine P R))) in Hin.
+  destruct (Hrec p res Hin) as (H1 & H2 & H3 & H4 & H5 & H6).
+  exists (p_grp p). split; [exact H5|]. split; [exact H6|]. split; [exact H4|]. cbn [fst snd].
+  unfold spec_row. rewrite <- H2, <- H3. reflexivity.
+Qed.
+End PhotMain.
